@@ -374,8 +374,8 @@ pub fn run(t: &[&str]) -> String {
     let pre = c.u() as usize;
     let vendor = if c.u() == 1 { Vendor::AArch64 } else { Vendor::Default };
     let b = build(&mut c);
-    if stream == "c14.f_asz" {
-        // address sizes the writer cannot honour: must be an error, neither a panic nor a runaway loop
+    if stream == "c14.asz" {
+        // address sizes the writer cannot honour must be an error, neither a panic nor a runaway loop (watchdog)
         let cap = 1 << 20;
         let w = CapVec { v: EndianVec::new(e), cap, runaway: false };
         let (res, runaway, n) = if eh {
